@@ -21,9 +21,28 @@ Qed.
 
 Definition key_ltb (a b : key) : bool := key_leb a b && negb (key_eqb a b).
 
+(** group labels: integers in their order, the null label last *)
+Definition olt (a b : option Z) : Prop :=
+  match a, b with Some x, Some y => (x < y)%Z | Some _, None => True | _, _ => False end.
+Definition ole (a b : option Z) : Prop := a = b \/ olt a b.
+Lemma olt_trans a b c : olt a b -> olt b c -> olt a c.
+Proof. destruct a, b, c; cbn; try tauto. lia. Qed.
+Lemma ogrp_eqb_eq (a b : option Z) : opt_eqb Z.eqb a b = true <-> a = b.
+Proof.
+  destruct a as [x|], b as [y|]; cbn; try (split; [discriminate | intros E; discriminate]); [|tauto].
+  rewrite Z.eqb_eq. split; [now intros -> | intros E; now inversion E].
+Qed.
+Lemma ogrp_lt_spec (a b : option Z) : ogrp_leb a b && negb (opt_eqb Z.eqb a b) = true <-> olt a b.
+Proof.
+  destruct a as [x|], b as [y|]; cbn; try (split; [discriminate | tauto]); [|tauto].
+  rewrite andb_true_iff, negb_true_iff, Z.leb_le, Z.eqb_neq. lia.
+Qed.
+Lemma ogrp_not_le (a b : option Z) : ogrp_leb a b = false -> olt b a.
+Proof. destruct a as [x|], b as [y|]; cbn; try discriminate; try tauto. intros H. apply Z.leb_gt in H. lia. Qed.
+
 Lemma key_eqb_eq (a b : key) : key_eqb a b = true <-> a = b.
 Proof.
-  destruct a as [s z], b as [s' z']. unfold key_eqb; cbn. rewrite andb_true_iff, String.eqb_eq, Z.eqb_eq.
+  destruct a as [s z], b as [s' z']. unfold key_eqb; cbn. rewrite andb_true_iff, String.eqb_eq, ogrp_eqb_eq.
   split; [intros [-> ->]; reflexivity | intros E; inversion E; auto].
 Qed.
 Lemma key_eqb_refl (a : key) : key_eqb a a = true. Proof. now apply key_eqb_eq. Qed.
@@ -35,13 +54,13 @@ Proof.
 Qed.
 
 Lemma key_ltb_spec (a b : key) : key_ltb a b = true <->
-  (String.compare (fst a) (fst b) = Lt \/ (fst a = fst b /\ (snd a < snd b)%Z)).
+  (String.compare (fst a) (fst b) = Lt \/ (fst a = fst b /\ olt (snd a) (snd b))).
 Proof.
   destruct a as [s z], b as [s' z']. unfold key_ltb, key_leb, key_eqb; cbn.
   destruct (String.eqb_spec s s') as [->|N].
-  - rewrite str_compare_refl. cbn. rewrite andb_true_iff, negb_true_iff, Z.leb_le, Z.eqb_neq. split.
-    + intros [H1 H2]. right. split; [reflexivity|lia].
-    + intros [H|[_ H]]; [discriminate|lia].
+  - rewrite str_compare_refl. cbn. rewrite ogrp_lt_spec. split.
+    + intros H. right. split; [reflexivity | exact H].
+    + intros [H|[_ H]]; [discriminate | exact H].
   - cbn. rewrite andb_true_r. split.
     + intros H. left. now apply str_leb_lt.
     + intros [H|[H _]]; [|contradiction]. unfold String.leb. now rewrite H.
@@ -56,7 +75,7 @@ Proof.
   - left. eapply str_compare_lt_trans; eassumption.
   - left. now rewrite <- E2.
   - left. now rewrite E1.
-  - right. split; [congruence|lia].
+  - right. split; [congruence | eapply olt_trans; eassumption].
 Qed.
 
 Lemma key_ltb_asym (a b : key) : key_ltb a b = true -> key_ltb b a = true -> False.
@@ -67,7 +86,7 @@ Lemma key_not_le_gt (a b : key) : key_eqb a b = false -> key_leb a b = false -> 
 Proof.
   intros NE NL. apply key_ltb_spec. destruct a as [s z], b as [s' z']. unfold key_leb, key_eqb in *; cbn in *.
   destruct (String.eqb_spec s s') as [->|N]; cbn in *.
-  - right. split; [reflexivity|]. apply Z.leb_gt in NL. lia.
+  - right. split; [reflexivity|]. now apply ogrp_not_le.
   - left. unfold String.leb in NL. rewrite String.compare_antisym. destruct (String.compare s s'); cbn; try discriminate. reflexivity.
 Qed.
 Lemma key_le_ne_lt (a b : key) : key_eqb a b = false -> key_leb a b = true -> key_ltb a b = true.
@@ -96,20 +115,16 @@ Proof.
 Qed.
 
 Lemma keys_of_In (ug : bool) (rows : list trow) (k : key) :
-  In k (keys_of ug rows) <-> exists r, In r rows /\ key_of ug r = Some k.
+  In k (keys_of ug rows) <-> exists r, In r rows /\ key_of ug r = k.
 Proof.
   induction rows as [|r rows IH]; cbn; [split; [tauto | intros (r & [] & _)]|].
-  destruct (key_of ug r) as [k'|] eqn:E.
-  - rewrite ins_In, IH. split.
-    + intros [->|(r' & Hr' & Hk)]; [exists r; auto | exists r'; auto].
-    + intros (r' & [<-|Hr'] & Hk); [left; congruence | right; exists r'; auto].
-  - rewrite IH. split.
-    + intros (r' & Hr' & Hk). exists r'; auto.
-    + intros (r' & [<-|Hr'] & Hk); [congruence | exists r'; auto].
+  rewrite ins_In, IH. split.
+  - intros [->|(r' & Hr' & Hk)]; [exists r; auto | exists r'; auto].
+  - intros (r' & [<-|Hr'] & Hk); [left; congruence | right; exists r'; auto].
 Qed.
 
 Lemma keys_of_sorted (ug : bool) (rows : list trow) : StronglySorted klt (keys_of ug rows).
-Proof. induction rows as [|r rows IH]; cbn; [constructor|]. destruct (key_of ug r); [now apply ins_sorted | exact IH]. Qed.
+Proof. induction rows as [|r rows IH]; cbn; [constructor | now apply ins_sorted]. Qed.
 
 Lemma sorted_NoDup (l : list key) : StronglySorted klt l -> NoDup l.
 Proof.
@@ -181,11 +196,9 @@ Qed.
 Lemma members_perm (ug : bool) (k : key) (rows rows' : list trow) : Permutation rows rows' -> Permutation (members ug k rows) (members ug k rows').
 Proof. apply filter_perm. Qed.
 
-Lemma members_In (ug : bool) (k : key) (rows : list trow) (r : trow) : In r (members ug k rows) <-> In r rows /\ key_of ug r = Some k.
+Lemma members_In (ug : bool) (k : key) (rows : list trow) (r : trow) : In r (members ug k rows) <-> In r rows /\ key_of ug r = k.
 Proof.
-  unfold members. rewrite filter_In. unfold has_key. destruct (key_of ug r) as [k'|]; split; intros [H1 H2]; split; auto; try discriminate.
-  - apply key_eqb_eq in H2. now subst.
-  - inversion H2. apply key_eqb_refl.
+  unfold members. rewrite filter_In. unfold has_key. rewrite key_eqb_eq. split; intros [H1 H2]; split; auto.
 Qed.
 
 (** equivalence of aggregated tables: same keys, Q-equal means *)
@@ -202,7 +215,7 @@ Qed.
 Lemma agg_spec (ug : bool) (sel : list nat) (rows : list trow) (k : key) (m : list Q) :
   In (k, m) (agg ug sel rows) ->
   let M := members ug k rows in
-  M <> [] /\ (forall r, In r M <-> In r rows /\ key_of ug r = Some k) /\
+  M <> [] /\ (forall r, In r M <-> In r rows /\ key_of ug r = k) /\
   m = map (fun j => sumQ (map (fun r => nth j (t_val r) 0) M) / inject_Z (Z.of_nat (length M))) sel.
 Proof.
   intros H M. unfold agg in H. apply in_map_iff in H as (k' & E & Hk). inversion E; subst k' m. clear E.
@@ -254,15 +267,15 @@ Proof.
       intro Ek. apply NI. rewrite <- (Hu k'); auto. now right.
 Qed.
 
-Lemma key_of_fst (ug : bool) (r : trow) (k : key) : key_of ug r = Some k -> fst k = t_taxa r.
-Proof. unfold key_of. destruct ug; [destruct (t_grp r)|]; intros E; inversion E; reflexivity. Qed.
+Lemma key_of_fst (ug : bool) (r : trow) : fst (key_of ug r) = t_taxa r.
+Proof. unfold key_of. now destruct ug. Qed.
 
-(** every taxon's records fall into one group, none of them null (always true without a group column) *)
+(** every taxon's records carry one group label (always true without a group column; a null label counts as a label) *)
 Definition single_key (ug : bool) (rows : list trow) : Prop :=
-  forall r1 r2, In r1 rows -> In r2 rows -> t_taxa r1 = t_taxa r2 -> key_of ug r1 = key_of ug r2 /\ key_of ug r1 <> None.
+  forall r1 r2, In r1 rows -> In r2 rows -> t_taxa r1 = t_taxa r2 -> key_of ug r1 = key_of ug r2.
 
 Lemma single_key_nogrp (rows : list trow) : single_key false rows.
-Proof. intros r1 r2 _ _ E. unfold key_of. rewrite E. split; [reflexivity | discriminate]. Qed.
+Proof. intros r1 r2 _ _ E. unfold key_of. now rewrite E. Qed.
 
 Definition of_taxon (x : str) (r : trow) : bool := String.eqb (t_taxa r) x.
 
@@ -270,19 +283,17 @@ Lemma lookup_aligned (ug : bool) (sel : list nat) (rows : list trow) (x : str) :
   single_key ug rows -> (exists r, In r rows /\ t_taxa r = x) ->
   lookup_last x (agg ug sel rows) = Some (mean_rows sel (filter (of_taxon x) rows)).
 Proof.
-  intros SK (r & Hr & Hx).
-  destruct (SK r r Hr Hr eq_refl) as [_ NN]. destruct (key_of ug r) as [kx|] eqn:Ek; [clear NN|congruence].
-  pose proof (key_of_fst _ _ _ Ek) as Fk.
+  intros SK (r & Hr & Hx). set (kx := key_of ug r).
+  assert (Fk : fst kx = x) by (unfold kx; now rewrite key_of_fst).
   unfold agg. rewrite (lookup_last_unique x (fun k => mean_rows sel (members ug k rows)) (keys_of ug rows) kx).
   - f_equal. f_equal. unfold members. apply filter_ext_in. intros r' Hr'. unfold has_key, of_taxon.
     destruct (String.eqb_spec (t_taxa r') x) as [E|N].
-    + destruct (SK r' r Hr' Hr) as [E' _]; [congruence|]. rewrite E', Ek. apply key_eqb_refl.
-    + destruct (key_of ug r') as [k'|] eqn:Ek'; [|reflexivity]. apply key_of_fst in Ek'.
-      destruct (key_eqb kx k') eqn:E; [|reflexivity]. apply key_eqb_eq in E. subst k'. congruence.
+    + rewrite (SK r' r Hr' Hr) by congruence. apply key_eqb_refl.
+    + destruct (key_eqb kx (key_of ug r')) eqn:E; [|reflexivity]. apply key_eqb_eq in E.
+      exfalso. apply N. rewrite <- (key_of_fst ug r'), <- E. exact Fk.
   - apply keys_of_In. exists r. auto.
-  - congruence.
-  - intros k Hk Fx. apply keys_of_In in Hk as (r' & Hr' & Ek'). pose proof (key_of_fst _ _ _ Ek') as Fk'.
-    destruct (SK r' r Hr' Hr) as [E' _]; [congruence|]. congruence.
+  - exact Fk.
+  - intros k Hk Fx. apply keys_of_In in Hk as (r' & Hr' & <-). apply (SK r' r Hr' Hr). rewrite key_of_fst in Fx. congruence.
 Qed.
 
 Lemma lookup_absent (ug : bool) (sel : list nat) (rows : list trow) (x : str) :
@@ -290,7 +301,20 @@ Lemma lookup_absent (ug : bool) (sel : list nat) (rows : list trow) (x : str) :
 Proof.
   intros H. apply lookup_last_none. intros [k v] Hkv. cbn.
   assert (Hk : In k (keys_of ug rows)) by (rewrite <- agg_keys with (sel := sel); apply in_map_iff; exists (k, v); auto).
-  apply keys_of_In in Hk as (r & Hr & Ek). apply key_of_fst in Ek. rewrite Ek. now apply H.
+  apply keys_of_In in Hk as (r & Hr & <-). rewrite key_of_fst. now apply H.
+Qed.
+
+(** a phenotyped taxon is never reported missing, whatever the group labels (null or not) *)
+Lemma lookup_present (ug : bool) (sel : list nat) (rows : list trow) (x : str) :
+  (exists r, In r rows /\ t_taxa r = x) -> exists v, lookup_last x (agg ug sel rows) = Some v.
+Proof.
+  intros (r & Hr & Hx). unfold agg.
+  assert (Hk : In (key_of ug r) (keys_of ug rows)) by (apply keys_of_In; eauto).
+  assert (Fk : fst (key_of ug r) = x) by now rewrite key_of_fst.
+  revert Hk Fk. generalize (key_of ug r). induction (keys_of ug rows) as [|k ks IH]; intros kx Hk Fk; [destruct Hk|]. cbn.
+  destruct Hk as [->|Hk].
+  - destruct (lookup_last x _); [eauto|]. rewrite <- Fk, String.eqb_refl. eauto.
+  - destruct (IH kx Hk Fk) as (v & ->). eauto.
 Qed.
 
 (** * 5. estimate *)
@@ -322,7 +346,7 @@ Proof.
   - repeat split; try reflexivity. now apply join_agg_eq.
   - exact I.
   - split; [exact (agg_eq_proj fst _ _ AE)|]. split; [|split; [reflexivity | now apply agg_eq_rows]].
-    destruct ug; [|reflexivity]. f_equal. exact (agg_eq_proj snd _ _ AE).
+    destruct ug; [|reflexivity]. f_equal. exact (agg_eq_proj (fun k => grp_code (snd k)) _ _ AE).
 Qed.
 
 Lemma estimate_aligned (ug hg : bool) (tcols names : list str) (rows : list trow) (gtx : list str) (gtg : option (list Z)) (o : est_out) :
@@ -348,9 +372,9 @@ Lemma estimate_groups (ug hg : bool) (tcols names : list str) (rows : list trow)
   estimate ug hg tcols names rows None = Some o ->
   exists sel, resolve tcols names = Some sel /\
   let '(tx, tg, tr, m) := o in
-  tx = map fst (keys_of ug rows) /\ tg = (if ug then Some (map snd (keys_of ug rows)) else None) /\ tr = tcols /\
+  tx = map fst (keys_of ug rows) /\ tg = (if ug then Some (map (fun k => grp_code (snd k)) (keys_of ug rows)) else None) /\ tr = tcols /\
   StronglySorted klt (keys_of ug rows) /\ NoDup (keys_of ug rows) /\
-  (forall k, In k (keys_of ug rows) <-> exists r, In r rows /\ key_of ug r = Some k) /\
+  (forall k, In k (keys_of ug rows) <-> exists r, In r rows /\ key_of ug r = k) /\
   m = map (fun k => Some (mean_rows sel (members ug k rows))) (keys_of ug rows).
 Proof.
   unfold estimate. destruct (resolve tcols names) as [sel|]; [|discriminate].
@@ -371,16 +395,18 @@ Lemma join_ignores_group_witness :
 Proof.
   cbv zeta. eexists. split; [vm_compute; reflexivity|]. split; [reflexivity|]. split.
   - vm_compute. discriminate.
-  - intro SK. destruct (SK ("a"%string, Some 1%Z, [2]) ("a"%string, Some 2%Z, [4])) as [E _]; cbn; auto. discriminate.
+  - intro SK. assert (E : key_of true ("a"%string, Some 1%Z, [2]) = key_of true ("a"%string, Some 2%Z, [4])) by (apply SK; cbn; auto).
+    discriminate.
 Qed.
 
-(** null groups drop records: a phenotyped taxon is reported missing *)
+(** an ungrouped population (all group labels null) is aggregated like any other group: the old behaviour lost it *)
 Lemma null_group_witness :
   let rows : list trow := [("a"%string, None, [2]); ("a"%string, None, [4])] in
-  lookup_last "a"%string (agg true [0%nat] rows) = None /\ (exists r, In r rows /\ t_taxa r = "a"%string) /\ ~ single_key true rows.
+  single_key true rows /\ (exists v, lookup_last "a"%string (agg true [0%nat] rows) = Some [v] /\ v == 3) /\
+  lookup_last "a"%string (agg true [0%nat] (drop_null_groups true rows)) = None.
 Proof.
-  cbv zeta. split; [reflexivity|]. split; [eexists; split; [left; reflexivity | reflexivity]|].
-  intro SK. destruct (SK ("a"%string, None, [2]) ("a"%string, None, [2])) as [_ N]; cbn; auto.
+  cbv zeta. split; [|split; [eexists; split; [vm_compute; reflexivity | reflexivity] | reflexivity]].
+  intros r1 r2 H1 H2 _. cbn in H1, H2. destruct H1 as [<-|[<-|[]]], H2 as [<-|[<-|[]]]; reflexivity.
 Qed.
 
 (** * 6. heritability calibration *)
@@ -844,9 +870,22 @@ Proof.
   - eexists. split; [reflexivity|]. vm_compute. discriminate.
 Qed.
 
-Lemma estimate_null_group_refuted :
+(** full strength since the fix: a phenotyped taxon is never reported missing, whatever its group labels *)
+Lemma estimate_phenotyped_not_missing (ug hg : bool) (tcols names : list str) (rows : list trow) (gtx : list str) (gtg : option (list Z))
+    (tx : list str) (tg : option (list Z)) (tr : list str) (m : list (option (list Q))) :
+  estimate ug hg tcols names rows (Some (Some gtx, gtg)) = Some (tx, tg, tr, m) ->
+  forall i x, nth_error gtx i = Some x -> (exists r, In r rows /\ t_taxa r = x) -> exists v, nth_error m i = Some (Some v).
+Proof.
+  unfold estimate. destruct (resolve tcols names) as [sel|]; [|discriminate].
+  destruct (ug && negb hg); [discriminate|]. intros E. inversion E; subst. clear E.
+  intros i x Hx EX. destruct (lookup_present ug sel rows x EX) as (v & Hv). exists v.
+  unfold join. rewrite nth_error_map, Hx. cbn. now rewrite Hv.
+Qed.
+
+(** the behaviour before commit 187dc882 (null-group records dropped): the phenotyped taxon was reported missing *)
+Lemma estimate_dropna_refuted :
   exists (rows : list trow) (gtx : list str) tx tg tr m,
-    estimate true true ["y"%string] ["y"%string] rows (Some (Some gtx, None)) = Some (tx, tg, tr, m) /\
+    estimate_dropna true true ["y"%string] ["y"%string] rows (Some (Some gtx, None)) = Some (tx, tg, tr, m) /\
     exists i x, nth_error gtx i = Some x /\ (exists r, In r rows /\ t_taxa r = x) /\ nth_error m i = Some None.
 Proof.
   exists [("a"%string, None, [2]); ("a"%string, None, [4])], ["a"%string].
@@ -859,12 +898,12 @@ Lemma estimate_groups_means (ug hg : bool) (tcols names : list str) (rows : list
   estimate ug hg tcols names rows None = Some (tx, tg, tr, m) ->
   exists sel, resolve tcols names = Some sel /\
   let ks := keys_of ug rows in
-  tx = map fst ks /\ tg = (if ug then Some (map snd ks) else None) /\ tr = tcols /\ length m = length ks /\
+  tx = map fst ks /\ tg = (if ug then Some (map (fun k => grp_code (snd k)) ks) else None) /\ tr = tcols /\ length m = length ks /\
   StronglySorted klt ks /\ NoDup ks /\
-  (forall k, In k ks <-> exists r, In r rows /\ key_of ug r = Some k) /\
+  (forall k, In k ks <-> exists r, In r rows /\ key_of ug r = k) /\
   forall i k, nth_error ks i = Some k ->
     let recs := members ug k rows in
-    recs <> [] /\ (forall r, In r recs <-> In r rows /\ key_of ug r = Some k) /\
+    recs <> [] /\ (forall r, In r recs <-> In r rows /\ key_of ug r = k) /\
     nth_error m i = Some (Some (map (fun j => sumQ (map (fun r => nth j (t_val r) 0) recs) / inject_Z (Z.of_nat (length recs))) sel)).
 Proof.
   intros H. destruct (estimate_groups _ _ _ _ _ _ H) as (sel & R & E1 & E2 & E3 & S & ND & IK & EM).
@@ -919,8 +958,8 @@ Lemma estimate_join_last_group (hg : bool) (tcols names : list str) (rows : list
   estimate true hg tcols names rows (Some (Some gtx, gtg)) = Some (tx, tg, tr, m) ->
   exists sel, resolve tcols names = Some sel /\
   forall i x g, nth_error gtx i = Some x ->
-    (exists r, In r rows /\ t_taxa r = x /\ t_grp r = Some g) ->
-    (forall r g', In r rows -> t_taxa r = x -> t_grp r = Some g' -> (g' <= g)%Z) ->
+    (exists r, In r rows /\ t_taxa r = x /\ t_grp r = g) ->
+    (forall r, In r rows -> t_taxa r = x -> ole (t_grp r) g) ->
     nth_error m i = Some (Some (mean_rows sel (members true (x, g) rows))).
 Proof.
   intros H. destruct (estimate_aligned _ _ _ _ _ _ _ _ H) as (sel & R & _). exists sel. split; [exact R|].
@@ -930,8 +969,7 @@ Proof.
   - apply keys_of_sorted.
   - apply keys_of_In. exists r. split; [exact Hr|]. unfold key_of. now rewrite Eg, Et.
   - reflexivity.
-  - intros k Hk Fk. apply keys_of_In in Hk as (r' & Hr' & Ek'). unfold key_of in Ek'.
-    destruct (t_grp r') as [g'|] eqn:Eg'; [|discriminate]. inversion Ek'; subst k. cbn in Fk.
-    pose proof (Hmax r' g' Hr' Fk Eg') as Le. destruct (Z.eq_dec g' g) as [->|NE]; [left; now rewrite Fk|].
-    right. apply key_ltb_spec. right. cbn. split; [exact Fk | lia].
+  - intros k Hk Fk. apply keys_of_In in Hk as (r' & Hr' & <-). unfold key_of in *. cbn in Fk.
+    destruct (Hmax r' Hr' Fk) as [E|L]; [left; now rewrite Fk, E|].
+    right. apply key_ltb_spec. right. cbn. split; [exact Fk | exact L].
 Qed.
